@@ -129,6 +129,31 @@ pub fn h_prwh_heartbeat<S: Src, const N: usize>(s: &mut S) {
     }
 }
 
+/// application-data arm of the record-payload parser (concrete content type 0x17)
+pub fn h_prwh_appdata<S: Src, const N: usize>(s: &mut S) {
+    let buf: [u8; N] = s.bytes();
+    let n = s.usize();
+    vassume!(s, n <= N);
+    let ver = s.u16();
+    let i = &buf[..n];
+    let hdr = TlsRecordHeader { record_type: TlsRecordType(0x17), version: TlsVersion(ver), len: n as u16 };
+    let r = parse_tls_record_with_header(i, &hdr);
+    vcover!(s, n == 0, "empty application-data record reached");
+    vcover!(s, n > 0, "non-empty application-data record reached");
+    match &r {
+        Ok((rem, v)) => {
+            vassert!(s, rem.is_empty(), "record payload: application data consumes the whole payload");
+            vassert!(s, v.len() == 1, "record payload: one opaque application-data blob");
+            match &v[0] {
+                TlsMessage::ApplicationData(d) => vassert!(s, is_sub(i, d.blob, 0, n), "record payload: application-data blob is the payload, zero-copy"),
+                _ => vassert!(s, false, "record payload: application-data record yields application data"),
+            }
+        }
+        Err(_) => vassert!(s, false, "record payload: an application-data record of any length decodes to one blob"),
+    }
+}
+
+harness!(leaf_prwh_appdata, unwind = 4, h_prwh_appdata::<_, 3>);
 harness!(fd_msg_ccs, unwind = 3, h_msg_ccs);
 harness!(fd_msg_alert, unwind = 3, h_msg_alert);
 harness!(leaf_msg_appdata, unwind = 3, h_msg_appdata);
